@@ -8,3 +8,15 @@ pub mod fronts;
 pub mod guard;
 
 pub use fmt::Fmt;
+
+/// The default and the compact configuration built WITHOUT the `verif` hook feature, i.e. exactly as a user of
+/// the crate builds them: parse only (no path classification).  Index 0 = default, 1 = compact.
+pub mod plain {
+    pub const NAMES: [&str; 2] = ["default (no verif feature)", "compact (no verif feature)"];
+    pub fn parse32(which: usize, int: &[u8], frac: &[u8], exp: i32) -> u64 {
+        (if which == 0 { ml_default_plain::parse_float::<f32, _, _>(int.iter(), frac.iter(), exp) } else { ml_compact_plain::parse_float::<f32, _, _>(int.iter(), frac.iter(), exp) }).to_bits() as u64
+    }
+    pub fn parse64(which: usize, int: &[u8], frac: &[u8], exp: i32) -> u64 {
+        (if which == 0 { ml_default_plain::parse_float::<f64, _, _>(int.iter(), frac.iter(), exp) } else { ml_compact_plain::parse_float::<f64, _, _>(int.iter(), frac.iter(), exp) }).to_bits()
+    }
+}
